@@ -200,10 +200,63 @@ func txCase(stage string, tx *bt.Tx) {
 	guard("json(*bt.Tx)/case", map[string]string{"stage": stage}, func() { txCase1(stage, tx) })
 }
 
+// documents returned by direct MarshalJSON calls (json.Marshaler), kept as a caller keeps them
+type keptDoc struct {
+	got  []byte
+	want string
+	what string
+}
+
+var keptDocs []keptDoc
+
+func keepDoc(what string, doc []byte, in interface{}) {
+	for _, k := range keptDocs {
+		if string(k.got) != k.want {
+			c.Violate("MarshalJSON/earlier-result-changed-by-a-later-call", fmt.Sprintf("the document returned by %s now reads %s", k.what, trunc(string(k.got))), in)
+			keptDocs = nil
+			break
+		}
+	}
+	keptDocs = append(keptDocs, keptDoc{doc, string(doc), what})
+	if len(keptDocs) > 4 {
+		keptDocs = keptDocs[1:]
+	}
+}
+
 func txCase1(stage string, tx *bt.Tx) {
 	in := map[string]string{"stage": stage, "tx_ext_hex": trunc(hex.EncodeToString(tx.ExtendedBytes()))}
 	want := tx.Bytes()
 	id := tx.TxID()
+	// the marshalers called directly (as any json.Marshaler user may): the bytes they return stay what they are
+	guard("MarshalJSON/direct", in, func() {
+		if d, err := tx.MarshalJSON(); err == nil {
+			keepDoc("Tx.MarshalJSON", d, in)
+		}
+		if m, ok := tx.NodeJSON().(json.Marshaler); ok {
+			if d, err := m.MarshalJSON(); err == nil {
+				keepDoc("tx.NodeJSON().MarshalJSON", d, in)
+			}
+		}
+	})
+	// one NodeJSON() value used before and after the transaction changes (signing, a fee bump): it describes the
+	// transaction as it is when it is marshalled
+	if !ambiguous(tx) {
+		guard("NodeJSON/reused-wrapper", in, func() {
+			w := tx.NodeJSON()
+			if _, err := json.Marshal(w); err != nil {
+				return
+			}
+			tx.LockTime ^= 0x2a
+			tx.Version ^= 0x4
+			d2, err := json.Marshal(w)
+			t5 := bt.NewTx()
+			if err == nil && json.Unmarshal(d2, t5.NodeJSON()) == nil && !bytes.Equal(t5.Bytes(), tx.Bytes()) {
+				c.Violate("json.Marshal(tx.NodeJSON())/wrapper-describes-an-earlier-state-of-the-transaction", fmt.Sprintf("after locktime and version were changed the same NodeJSON() value marshals to a document of %s, the transaction is %s", trunc(hex.EncodeToString(t5.Bytes())), trunc(hex.EncodeToString(tx.Bytes()))), in)
+			}
+			tx.LockTime ^= 0x2a
+			tx.Version ^= 0x4
+		})
+	}
 	c.Tally("tx/" + stage)
 	suffix := ""
 	if ambiguous(tx) {
